@@ -133,6 +133,8 @@ func c08ValueOracle(a, b c08Val) string {
 		return "sensitive:builtin-identity"
 	case a.class == "host-range" && b.class == "host-range", a.class == "host-range" && b.class == "shape", a.class == "shape" && b.class == "host-range":
 		return "sensitive:range-as-list"
+	case a.class == "host-iterable" || b.class == "host-iterable":
+		return "sensitive:string-iterable"
 	}
 	return "sensitive"
 }
@@ -366,6 +368,15 @@ func c08ValuePool(rng *rand.Rand, thorough bool) []c08Val {
 	for _, s := range []string{"os", "sh", "json", "host", "label(\"a/x\")", "label(\"a/y\")", "label(\"b/x\")", "path(\":b\")", "path(\":c\")", "\"//a:x\"", "\"a/x\"",
 		"\":b\""} {
 		add(s, "host-value", false, true)
+	}
+	// iterables of a string or of bytes (values that are neither data nor callables nor attribute holders; the two
+	// .elems() of a string are sequences), next to the lists and tuples of the same elements, each of the four views of
+	// the same string next to the others, of the empty string, and of strings that differ in one character
+	for _, s := range []string{"\"abc\".codepoints()", "\"abd\".codepoints()", "\"abc\".codepoint_ords()", "\"abd\".codepoint_ords()", "\"abc\".elems()", "\"abd\".elems()",
+		"\"abc\".elem_ords()", "\"abd\".elem_ords()", "b\"abc\".elems()", "b\"abd\".elems()", "\"\".codepoints()", "\"\".codepoint_ords()", "\"\".elems()", "\"\".elem_ords()", "b\"\".elems()",
+		"\"\\u00e9\".codepoints()", "\"\\u00e9\".codepoint_ords()", "\"\\u00e9\".elems()", "\"\\u00e9\".elem_ords()", "\"ab\".codepoints()", "\"abcd\".codepoints()",
+		"[\"a\", \"b\", \"c\"]", "(\"a\", \"b\", \"c\")", "[97, 98, 99]", "(97, 98, 99)", "[\"\\u00e9\"]", "[233]", "[195, 169]"} {
+		add(s, "host-iterable", false, true)
 	}
 	return out
 }
